@@ -1704,7 +1704,12 @@ func judgeIncompleteWrites(r *Run, j *Judged) {
 		}
 		j.count("C06", "forbidden-store")
 		for _, s := range r.Store {
-			if s.Kind != "set" || s.Seq < o.SeqResp || s.Seq > next || !strings.HasPrefix(s.Gor, u.Gor) {
+			if s.Kind != "set" || s.Seq < o.SeqResp || s.Seq > next || s.Owner != u.Owner || s.OwnerOp != u.OwnerOp {
+				continue
+			}
+			// (the goroutine names of a client's background work begin with the client's name too: a foreground
+			// call owns the foreground writes of its exchange, a background call those of its own lineage)
+			if (u.Fg && !s.Fg) || (!u.Fg && !strings.HasPrefix(s.Gor, u.Gor)) {
 				continue
 			}
 			if u.Fg && e.SeqRet != 0 && s.Seq > e.SeqRet {
